@@ -160,8 +160,13 @@ FillCore(kind, seed, k, r0, m, n, r1) ==
         FillEntry(kind, seed, k, a, i, j, b)]]]]
 
 \* shape = [rd, cd, rk] with Len(rk) = Len(rd) + 1
+\* "mixed1": first core real, the others complex; "mixedL": only the last core complex (mixed dtypes inside one train)
 FillCores(kind, seed, sh) ==
-    [k \in 1..Len(sh.rd) |-> FillCore(kind, seed, k, sh.rk[k], sh.rd[k], sh.cd[k], sh.rk[k + 1])]
+    LET d == Len(sh.rd)
+        kindOf(k) == CASE kind = "mixed1" -> (IF k = 1 /\ d > 1 THEN "real" ELSE "complex")
+                       [] kind = "mixedL" -> (IF k = d THEN "complex" ELSE "real")
+                       [] OTHER -> kind
+    IN  [k \in 1..d |-> FillCore(kindOf(k), seed, k, sh.rk[k], sh.rd[k], sh.cd[k], sh.rk[k + 1])]
 
 \* all shapes of order d with mode sizes from the given sets, inner ranks from RK
 ShapesD(d, RD, CD, RK) ==
